@@ -1,0 +1,39 @@
+//! `cfg(libp2p_verif)` verification hook (property C32): a public wrapper that only *calls* the
+//! private [`BackoffStorage`]. Not compiled unless `--cfg libp2p_verif` is passed.
+
+use std::time::Duration;
+
+use libp2p_identity::PeerId;
+use web_time::Instant;
+
+use crate::{backoff::BackoffStorage, topic::TopicHash};
+
+pub struct Backoff(BackoffStorage);
+
+impl Backoff {
+    pub fn new(prune_backoff: Duration, heartbeat_interval: Duration, backoff_slack: u32) -> Self {
+        Backoff(BackoffStorage::new(
+            &prune_backoff,
+            heartbeat_interval,
+            backoff_slack,
+        ))
+    }
+
+    pub fn update_backoff(&mut self, topic: &str, peer: &PeerId, time: Duration) {
+        self.0
+            .update_backoff(&TopicHash::from_raw(topic), peer, time)
+    }
+
+    pub fn heartbeat(&mut self) {
+        self.0.heartbeat()
+    }
+
+    pub fn is_backoff_with_slack(&self, topic: &str, peer: &PeerId) -> bool {
+        self.0
+            .is_backoff_with_slack(&TopicHash::from_raw(topic), peer)
+    }
+
+    pub fn get_backoff_time(&self, topic: &str, peer: &PeerId) -> Option<Instant> {
+        self.0.get_backoff_time(&TopicHash::from_raw(topic), peer)
+    }
+}
